@@ -51,12 +51,12 @@ func u64(v interface{}) uint64 {
 	return 0
 }
 
-func (g *goM) Step() error          { return g.r.Tick(false) }
-func (g *goM) Pc(p int) uint64      { return g.r.VM.Processors[p].Pc }
-func (g *goM) Reg(p, r int) uint64  { return u64(g.r.VM.Processors[p].Registers[r]) }
-func (g *goM) Out() [][]uint64      { return g.r.Res.Out }
-func (g *goM) Ticks() int           { return g.r.Res.Ticks }
-func (g *goM) Close()               { g.r.Stop() }
+func (g *goM) Step() error         { return g.r.Tick(false) }
+func (g *goM) Pc(p int) uint64     { return g.r.VM.Processors[p].Pc }
+func (g *goM) Reg(p, r int) uint64 { return u64(g.r.VM.Processors[p].Registers[r]) }
+func (g *goM) Out() [][]uint64     { return g.r.Res.Out }
+func (g *goM) Ticks() int          { return g.r.Res.Ticks }
+func (g *goM) Close()              { g.r.Stop() }
 func (g *goM) InTaken() []int {
 	t := make([]int, len(g.r.Res.InTick))
 	for i, x := range g.r.Res.InTick {
